@@ -1,15 +1,18 @@
-//! Blocks, `let`, `if`, `match`, `return`, `?` at statement level, in continuation-passing style:
-//! `k` receives the (pure) value of the expression and produces the rest of the function.
-//! Code after an `if` whose branch falls through is duplicated into the branch; there is no
-//! mutation in the subset, so this is exact.
+//! Blocks, `let`, assignment, `if`, `match`, loops, `return`, `?` at statement level, in
+//! continuation-passing style: `k` receives the (pure) value of the expression and the variables
+//! as they are at that point, and produces the rest of the function.  Code after an `if` whose
+//! branch falls through is duplicated into the branch.  Mutation is translated by rebinding: an
+//! assignment gives the variable's declaration a new Lean name; a loop becomes a recursive
+//! definition from the variables in scope to the variables it assigns (see `tr_loop.rs`).
 
 use crate::doc::Doc;
 use crate::tr_core::*;
+use crate::tr_loop::tuple_term;
 use crate::types::*;
 
-pub type K<'k, 'a> = &'k dyn Fn(&mut Tr<'a>, Val) -> R<Doc>;
+pub type K<'k, 'a> = &'k dyn Fn(&mut Tr<'a>, Val, &Env) -> R<Doc>;
 
-fn unit() -> Val {
+pub fn unit() -> Val {
     Val::pure_("()", Ty::Unit)
 }
 
@@ -17,31 +20,142 @@ fn is_int(t: &Ty) -> bool {
     matches!(t, Ty::Usize | Ty::U8 | Ty::Int)
 }
 
-impl<'a> Tr<'a> {
-    /// Bind an effectful value before handing it to the continuation.
-    pub fn force(&mut self, v: Val, k: K<'_, 'a>) -> R<Doc> {
-        if !v.eff() {
-            return k(self, v);
+/// `Some(<something that is not a plain binding or wildcard>)`
+fn nested_some(p: &syn::Pat) -> bool {
+    match p {
+        syn::Pat::Paren(pp) => nested_some(&pp.pat),
+        syn::Pat::TupleStruct(ts) if ts.elems.len() == 1 => {
+            let mut sub = &ts.elems[0];
+            loop {
+                match sub {
+                    syn::Pat::Reference(r) => sub = &r.pat,
+                    syn::Pat::Paren(pp) => sub = &pp.pat,
+                    _ => break,
+                }
+            }
+            !matches!(sub, syn::Pat::Ident(_) | syn::Pat::Wild(_))
         }
-        self.effect_guard("a sub-expression")?;
+        _ => false,
+    }
+}
+
+pub fn contains_infer(t: &Ty) -> bool {
+    match t {
+        Ty::Infer => true,
+        Ty::Opt(x) | Ty::List(x) | Ty::ResPE(x) | Ty::ResOpaque(x) | Ty::Iter(x) => contains_infer(x),
+        Ty::Tuple(xs) => xs.iter().any(contains_infer),
+        _ => false,
+    }
+}
+
+impl<'a> Tr<'a> {
+    /// Bind an effectful value (and apply the variable updates its evaluation caused) before
+    /// handing it to the continuation.
+    pub fn force(&mut self, v: Val, env: &Env, k: K<'_, 'a>) -> R<Doc> {
+        let ups = std::mem::take(&mut self.pending);
+        if !v.eff() && ups.is_empty() {
+            return k(self, v, env);
+        }
+        if v.eff() {
+            self.effect_guard("a sub-expression")?;
+        }
         let mut pure_v = v.clone();
         pure_v.binds = vec![];
-        let mut d = k(self, pure_v)?;
+        // variables mutated by the expression (the subtag iterator advanced, a map entry removed)
+        let mut env2 = env.clone();
+        let mut lets: Vec<(String, String)> = Vec::new();
+        for (d, term) in ups {
+            let (name, ty) = match (env2.name_of(d), env2.val_of(d)) {
+                (Some(n), Some(v)) => (n.to_string(), v.ty.clone()),
+                _ => return self.unsup("internal: update of an unknown variable"),
+            };
+            let ln = self.fresh(&name);
+            lets.push((ln.clone(), term));
+            env2.assign(d, Val::pure_(ln, ty));
+        }
+        let mut d = k(self, pure_v, &env2)?;
+        for (ln, term) in lets.into_iter().rev() {
+            d = Doc::Let(ln, term, Box::new(d));
+        }
         for (x, c) in v.binds.iter().rev() {
             d = Doc::Bind(Box::new(Doc::Atom(c.clone())), x.clone(), Box::new(d));
         }
         Ok(d)
     }
 
+    /// The terms of the variables whose final values are part of the function result
+    /// (`&mut self`, the subtag iterator, the formatter buffer), in that order.
+    fn out_terms(&self, env: &Env) -> R<Vec<String>> {
+        let mut out = Vec::new();
+        for d in &self.outs {
+            match env.val_of(*d) {
+                Some(v) => out.push(v.t.clone()),
+                None => return Err("internal: an output variable is not in scope at a return".into()),
+            }
+        }
+        Ok(out)
+    }
+
     /// The function result: `return e` and the tail expression of the body.
-    pub fn k_ret(&mut self, v: Val) -> R<Doc> {
+    pub fn k_ret(&mut self, v: Val, env: &Env) -> R<Doc> {
+        // a pending update of a variable does not matter any more, unless it is an output
+        let ups = std::mem::take(&mut self.pending);
+        let mut env = env.clone();
+        let mut lets: Vec<(String, String)> = Vec::new();
+        for (d, term) in ups {
+            if self.outs.contains(&d) {
+                let (name, ty) = match (env.name_of(d), env.val_of(d)) {
+                    (Some(n), Some(v)) => (n.to_string(), v.ty.clone()),
+                    _ => return self.unsup("internal: update of an unknown variable"),
+                };
+                let ln = self.fresh(&name);
+                lets.push((ln.clone(), term));
+                env.assign(d, Val::pure_(ln, ty));
+            }
+        }
+        let env = &env;
+        let wrap = |mut d: Doc, v: &Val| -> Doc {
+            for (ln, term) in lets.iter().rev() {
+                d = Doc::Let(ln.clone(), term.clone(), Box::new(d));
+            }
+            for (x, c) in v.binds.iter().rev() {
+                d = Doc::Bind(Box::new(Doc::Atom(c.clone())), x.clone(), Box::new(d));
+            }
+            d
+        };
+        if !self.loops.is_empty() {
+            // inside a loop definition (its result is the loop's variables): only an error leaves
+            // the function
+            if self.mode == Mode::Res && matches!(v.ty, Ty::ResPE(_)) && v.t.starts_with("(Res.err ") && !v.callres {
+                return Ok(wrap(Doc::Atom(v.t.clone()), &v));
+            }
+            return self.unsup("`return` of something that is not an `Err(..)` inside a loop");
+        }
+        let outs = self.out_terms(env)?;
         match self.mode {
             Mode::Pure => {
                 if v.eff() || v.callres {
                     return self.unsup("the function result may panic, but the model type has no panic value");
                 }
+                if self.ret_unit {
+                    // `()`, `fmt::Result`: only the outputs are returned
+                    if !matches!(v.ty, Ty::Unit | Ty::FmtRes) {
+                        return self.unsup(format!("function result of type {:?} where `()` is expected", v.ty));
+                    }
+                    if outs.is_empty() {
+                        return self.unsup("a function that returns nothing and changes nothing");
+                    }
+                    return Ok(wrap(Doc::Atom(tuple_term(&outs)), &v));
+                }
                 self.check_ret_ty(&v.ty)?;
-                Ok(Doc::Atom(v.t))
+                let mut parts = Vec::new();
+                let self_first = self.self_out.is_some();
+                if self_first {
+                    parts.push(outs[0].clone());
+                }
+                parts.push(v.t.clone());
+                parts.extend(outs.iter().skip(if self_first { 1 } else { 0 }).cloned());
+                Ok(wrap(Doc::Atom(tuple_term(&parts)), &v))
             }
             Mode::Res => {
                 let inner = match self.ret_ty.clone() {
@@ -52,12 +166,52 @@ impl<'a> Tr<'a> {
                     Ty::ResPE(t) => {
                         let t = (**t).clone();
                         self.check_compat(&t, &inner)?;
-                        // `v.t : Res T` is the result, after the pending binds
-                        let mut d = Doc::Atom(v.t.clone());
-                        for (x, c) in v.binds.iter().rev() {
-                            d = Doc::Bind(Box::new(Doc::Atom(c.clone())), x.clone(), Box::new(d));
+                        if let Some(d) = v.itercall {
+                            // `v.t : Res (T × List Bytes)`, the callee advanced iterator `d`
+                            if self.outs == vec![d] && !self.ret_unit {
+                                return Ok(wrap(Doc::Atom(v.t.clone()), &v));
+                            }
+                            if self.outs.is_empty() && !self.ret_unit {
+                                return Ok(wrap(Doc::Atom(format!("(Res.map Prod.fst {})", v.t)), &v));
+                            }
+                            return self.unsup("the result of an iterator-threading call returned from a function with other outputs");
                         }
-                        Ok(d)
+                        if outs.is_empty() {
+                            // `v.t : Res T` is the result, after the pending binds
+                            return Ok(wrap(Doc::Atom(v.t.clone()), &v));
+                        }
+                        // `Ok(x)` / `Err(e)` written out: no bind needed
+                        if v.t.starts_with("(Res.err ") && v.t.ends_with(')') {
+                            return Ok(wrap(Doc::Atom(v.t.clone()), &v));
+                        }
+                        let direct: Option<String> = if v.t.starts_with("(Res.ok ") && v.t.ends_with(')') {
+                            Some(v.t[8..v.t.len() - 1].to_string())
+                        } else {
+                            None
+                        };
+                        let r = match &direct {
+                            Some(x) => x.clone(),
+                            None => self.fresh("r"),
+                        };
+                        let mut parts = Vec::new();
+                        let self_first = self.self_out.is_some();
+                        if self_first {
+                            parts.push(outs[0].clone());
+                        }
+                        if !self.ret_unit {
+                            parts.push(r.clone());
+                        }
+                        parts.extend(outs.iter().skip(if self_first { 1 } else { 0 }).cloned());
+                        if direct.is_some() {
+                            return Ok(wrap(Doc::Atom(format!("Res.ok {}", tuple_term(&parts))), &v));
+                        }
+                        let binder = if self.ret_unit { "_".to_string() } else { r };
+                        let d = Doc::Bind(
+                            Box::new(Doc::Atom(v.t.clone())),
+                            binder,
+                            Box::new(Doc::Atom(format!("Res.ok {}", tuple_term(&parts)))),
+                        );
+                        Ok(wrap(d, &v))
                     }
                     t => self.unsup(format!("function result of type {:?} where a Result<_, ParserError> is expected", t)),
                 }
@@ -73,13 +227,19 @@ impl<'a> Tr<'a> {
     /// `t` (what the expression has) against `want` (what is declared).
     pub fn check_compat(&mut self, t: &Ty, want: &Ty) -> R<()> {
         let ok = match (t, want) {
-            (Ty::Infer, _) => true,
+            (Ty::Infer, _) | (_, Ty::Infer) => true,
             (a, b) if is_int(a) && is_int(b) => !matches!((a, b), (Ty::Usize, Ty::U8) | (Ty::U8, Ty::Usize)),
             (Ty::Opt(a), Ty::Opt(b)) | (Ty::List(a), Ty::List(b)) | (Ty::ResPE(a), Ty::ResPE(b)) => {
                 let (a, b) = ((**a).clone(), (**b).clone());
                 return self.check_compat(&a, &b);
             }
-            (a, b) => a == b,
+            (Ty::Tuple(a), Ty::Tuple(b)) if a.len() == b.len() => {
+                for (x, y) in a.clone().iter().zip(b.clone().iter()) {
+                    self.check_compat(x, y)?;
+                }
+                true
+            }
+            (a, b) => a == b || self.lean_ty(a).ok() == self.lean_ty(b).ok() && self.lean_ty(a).is_ok(),
         };
         if ok {
             Ok(())
@@ -88,114 +248,160 @@ impl<'a> Tr<'a> {
         }
     }
 
+    /// A more specific type became known for a declaration (`let mut x = None; .. x = Some(s)`).
+    pub fn refine(&mut self, env: &mut Env, d: u32, ty: &Ty) {
+        if let Some(v) = env.val_of(d) {
+            if contains_infer(&v.ty) && !contains_infer(ty) {
+                let mut nv = v.clone();
+                nv.ty = ty.clone();
+                env.assign(d, nv);
+                self.decl_ty.insert(d, ty.clone());
+                if let Some(site) = self.decl_site.get(&d) {
+                    self.site_ty.entry(*site).or_insert_with(|| ty.clone());
+                }
+            }
+        }
+    }
+
     pub fn tr_block(&mut self, stmts: &[syn::Stmt], env: &Env, in_fn_tail: bool, k: K<'_, 'a>) -> R<Doc> {
         if stmts.is_empty() {
-            return k(self, unit());
+            return k(self, unit(), env);
         }
         let last = stmts.len() == 1;
         let rest = &stmts[1..];
         match &stmts[0] {
-            syn::Stmt::Local(l) => {
-                if !l.attrs.is_empty() {
-                    return self.unsup("attribute on a `let`");
-                }
-                let mut pat = &l.pat;
-                let mut annot: Option<Ty> = None;
-                if let syn::Pat::Type(pt) = pat {
-                    annot = Some(match &*pt.ty {
-                        syn::Type::Path(p) if p.path.segments.last().map(|s| s.ident == "RangeInclusive" || s.ident == "Range").unwrap_or(false) => Ty::Range,
-                        t => self.resolve_ty(t)?,
-                    });
-                    pat = &pt.pat;
-                }
-                let name: Option<String> = match pat {
-                    syn::Pat::Ident(pi) => {
-                        if pi.mutability.is_some() {
-                            return self.unsup("`let mut` (mutation is outside the subset)");
-                        }
-                        if pi.by_ref.is_some() || pi.subpat.is_some() {
-                            return self.unsup("`let` pattern");
-                        }
-                        Some(pi.ident.to_string())
-                    }
-                    syn::Pat::Wild(_) => None,
-                    _ => return self.unsup("destructuring `let`"),
-                };
-                let init = match &l.init {
-                    Some(i) => {
-                        if i.diverge.is_some() {
-                            return self.unsup("`let ... else`");
-                        }
-                        &i.expr
-                    }
-                    None => return self.unsup("`let` without initializer"),
-                };
-                let env_c = env.clone();
-                self.tr_tail(init, env, annot.as_ref(), false, &|me: &mut Tr<'a>, v: Val| {
-                    if v.callres {
-                        return me.unsup("the result of a call to a Result-returning function is stored (use `?` directly)");
-                    }
-                    let mut v = v;
-                    if let Some(a) = &annot {
-                        me.check_compat(&v.ty, a)?;
-                        if *a != Ty::Range {
-                            v.ty = a.clone();
-                        }
-                    }
-                    let mut env2 = env_c.clone();
-                    match &name {
-                        None => me.tr_block(rest, &env2, in_fn_tail, k),
-                        Some(n) => {
-                            if v.ty == Ty::Range {
-                                env2.insert(n.clone(), v);
-                                return me.tr_block(rest, &env2, in_fn_tail, k);
-                            }
-                            if v.ty == Ty::Unit {
-                                return me.unsup("`let` of a unit value");
-                            }
-                            let ln = me.fresh(n);
-                            env2.insert(n.clone(), Val::pure_(ln.clone(), v.ty.clone()));
-                            let body = me.tr_block(rest, &env2, in_fn_tail, k)?;
-                            Ok(Doc::Let(ln, v.t, Box::new(body)))
-                        }
-                    }
-                })
-            }
+            syn::Stmt::Local(l) => self.tr_let(l, rest, env, in_fn_tail, k),
             syn::Stmt::Expr(e, semi) => {
-                if last && semi.is_none() {
+                if last && semi.is_none() && !matches!(e, syn::Expr::While(_) | syn::Expr::ForLoop(_)) {
                     return self.tr_tail(e, env, None, in_fn_tail, k);
                 }
-                // statement position: only control flow makes sense (there are no side effects)
                 match e {
-                    syn::Expr::If(_) | syn::Expr::Match(_) | syn::Expr::Block(_) | syn::Expr::Return(_) => {
-                        let env_c = env.clone();
-                        self.tr_tail(e, env, None, false, &|me: &mut Tr<'a>, v: Val| {
+                    syn::Expr::If(_) | syn::Expr::Match(_) | syn::Expr::Block(_) | syn::Expr::Return(_) | syn::Expr::Break(_) | syn::Expr::Continue(_) => {
+                        self.tr_tail(e, env, None, false, &|me: &mut Tr<'a>, v: Val, env1: &Env| {
                             if v.ty != Ty::Unit {
                                 return me.unsup("an expression statement whose value is not `()`");
                             }
-                            me.tr_block(rest, &env_c, in_fn_tail, k)
+                            me.tr_block(rest, env1, in_fn_tail, k)
                         })
                     }
-                    syn::Expr::Macro(m) => self.tr_stmt_macro(&m.mac),
-                    syn::Expr::ForLoop(_) | syn::Expr::While(_) | syn::Expr::Loop(_) => self.unsup("loop"),
-                    syn::Expr::Assign(_) => self.unsup("assignment (mutation is outside the subset)"),
-                    other => self.unsup(format!("expression statement `{}` (side effects are outside the subset)", norm_tokens(other))),
+                    syn::Expr::Macro(m) => self.tr_stmt_macro(&m.mac, rest, env, in_fn_tail, k),
+                    syn::Expr::While(w) => self.tr_while(w, rest, env, in_fn_tail, k),
+                    syn::Expr::ForLoop(f) => self.tr_for(f, rest, env, in_fn_tail, k),
+                    syn::Expr::Loop(_) => self.unsup("`loop`"),
+                    syn::Expr::Assign(a) => self.tr_assign(a, rest, env, in_fn_tail, k),
+                    syn::Expr::MethodCall(_) | syn::Expr::Try(_) | syn::Expr::Call(_) => self.tr_effect_stmt(e, rest, env, in_fn_tail, k),
+                    other => self.unsup(format!("expression statement `{}`", norm_tokens(other))),
                 }
             }
-            syn::Stmt::Macro(m) => self.tr_stmt_macro(&m.mac),
+            syn::Stmt::Macro(m) => self.tr_stmt_macro(&m.mac, rest, env, in_fn_tail, k),
             syn::Stmt::Item(_) => self.unsup("item declared inside a function body"),
         }
     }
 
-    fn tr_stmt_macro(&mut self, m: &syn::Macro) -> R<Doc> {
-        let name = m.path.segments.last().map(|s| s.ident.to_string()).unwrap_or_default();
-        match name.as_str() {
-            "panic" | "unreachable" | "unimplemented" | "todo" => {
-                self.effect_guard(&format!("`{}!`", name))?;
-                Ok(Doc::Atom("Res.panic".into()))
-            }
-            _ => self.unsup(format!("macro `{}!` as a statement", name)),
+    fn tr_let(&mut self, l: &syn::Local, rest: &[syn::Stmt], env: &Env, in_fn_tail: bool, k: K<'_, 'a>) -> R<Doc> {
+        if !l.attrs.is_empty() {
+            return self.unsup("attribute on a `let`");
         }
+        let mut pat = &l.pat;
+        let mut annot: Option<Ty> = None;
+        if let syn::Pat::Type(pt) = pat {
+            annot = Some(match &*pt.ty {
+                syn::Type::Path(p) if p.path.segments.last().map(|s| s.ident == "RangeInclusive" || s.ident == "Range").unwrap_or(false) => Ty::Range,
+                t => self.resolve_ty(t)?,
+            });
+            pat = &pt.pat;
+        }
+        // `let (a, b) = e;`
+        let mut tuple_names: Option<Vec<Option<String>>> = None;
+        let name: Option<String> = match pat {
+            syn::Pat::Ident(pi) => {
+                if pi.by_ref.is_some() || pi.subpat.is_some() {
+                    return self.unsup("`let` pattern");
+                }
+                Some(pi.ident.to_string())
+            }
+            syn::Pat::Wild(_) => None,
+            syn::Pat::Tuple(t) => {
+                let mut ns = Vec::new();
+                for e in &t.elems {
+                    match e {
+                        syn::Pat::Ident(pi) if pi.by_ref.is_none() && pi.subpat.is_none() => ns.push(Some(pi.ident.to_string())),
+                        syn::Pat::Wild(_) => ns.push(None),
+                        _ => return self.unsup("nested pattern in a destructuring `let`"),
+                    }
+                }
+                tuple_names = Some(ns);
+                None
+            }
+            _ => return self.unsup("destructuring `let`"),
+        };
+        let init = match &l.init {
+            Some(i) => {
+                if i.diverge.is_some() {
+                    return self.unsup("`let ... else`");
+                }
+                &i.expr
+            }
+            None => return self.unsup("`let` without initializer"),
+        };
+        self.tr_tail(init, env, annot.as_ref(), false, &|me: &mut Tr<'a>, v: Val, env1: &Env| {
+            if v.callres {
+                return me.unsup("the result of a call to a Result-returning function is stored (use `?` directly)");
+            }
+            let mut v = v;
+            if let Some(a) = &annot {
+                me.check_compat(&v.ty, a)?;
+                if *a != Ty::Range {
+                    v.ty = a.clone();
+                }
+            }
+            // a type that only later code determines (`let mut x = None;`): known from the first pass
+            let site = l as *const syn::Local as usize;
+            if contains_infer(&v.ty) {
+                if let Some(t) = me.site_ty.get(&site) {
+                    v.ty = t.clone();
+                }
+            }
+            let mut env2 = env1.clone();
+            if let Some(ns) = &tuple_names {
+                let tys = match &v.ty {
+                    Ty::Tuple(t) if t.len() == ns.len() => t.clone(),
+                    t => return me.unsup(format!("destructuring `let` of {:?}", t)),
+                };
+                let mut pats = Vec::new();
+                for (n, t) in ns.iter().zip(tys.iter()) {
+                    match n {
+                        Some(n) => {
+                            let ln = me.fresh(n);
+                            env2.insert(n.clone(), Val::pure_(ln.clone(), t.clone()));
+                            pats.push(ln);
+                        }
+                        None => pats.push("_".into()),
+                    }
+                }
+                let body = me.tr_block(rest, &env2, in_fn_tail, k)?;
+                return Ok(Doc::Match(v.t, vec![(format!("({})", pats.join(", ")), body)]));
+            }
+            match &name {
+                None => me.tr_block(rest, &env2, in_fn_tail, k),
+                Some(n) => {
+                    if v.ty == Ty::Range {
+                        env2.insert(n.clone(), v);
+                        return me.tr_block(rest, &env2, in_fn_tail, k);
+                    }
+                    if v.ty == Ty::Unit {
+                        return me.unsup("`let` of a unit value");
+                    }
+                    let ln = me.fresh(n);
+                    let d = env2.insert(n.clone(), Val::pure_(ln.clone(), v.ty.clone()));
+                    if contains_infer(&v.ty) {
+                        me.decl_site.insert(d, site);
+                    }
+                    let body = me.tr_block(rest, &env2, in_fn_tail, k)?;
+                    Ok(Doc::Let(ln, v.t, Box::new(body)))
+                }
+            }
+        })
     }
 
     /// An expression whose value goes to `k`.  `in_fn_tail`: this is the tail of the function
@@ -210,7 +416,7 @@ impl<'a> Tr<'a> {
                 if b.label.is_some() || !b.attrs.is_empty() {
                     return self.unsup("labelled block");
                 }
-                self.tr_block(&b.block.stmts, env, in_fn_tail, k)
+                self.tr_scoped_block(&b.block.stmts, env, in_fn_tail, k)
             }
             syn::Expr::Return(r) => {
                 if self.pure_only > 0 {
@@ -220,9 +426,27 @@ impl<'a> Tr<'a> {
                     None => self.unsup("`return` without a value"),
                     Some(x) => {
                         let rt = self.ret_ty.clone();
-                        self.tr_tail(x, env, Some(&rt), false, &|me: &mut Tr<'a>, v: Val| me.k_ret(v))
+                        self.tr_tail(x, env, Some(&rt), false, &|me: &mut Tr<'a>, v: Val, env1: &Env| me.k_ret(v, env1))
                     }
                 }
+            }
+            syn::Expr::Break(b) => {
+                if b.label.is_some() || b.expr.is_some() {
+                    return self.unsup("`break` with a label or a value");
+                }
+                if self.pure_only > 0 {
+                    return self.unsup("`break` inside an operand or closure");
+                }
+                self.loop_break(env)
+            }
+            syn::Expr::Continue(c) => {
+                if c.label.is_some() {
+                    return self.unsup("`continue` with a label");
+                }
+                if self.pure_only > 0 {
+                    return self.unsup("`continue` inside an operand or closure");
+                }
+                self.loop_continue(env)
             }
             syn::Expr::If(i) => self.tr_if(i, env, expected, in_fn_tail, k),
             syn::Expr::Match(m) => self.tr_match(m, env, expected, in_fn_tail, k),
@@ -232,16 +456,47 @@ impl<'a> Tr<'a> {
                     Some("panic") | Some("unreachable") | Some("unimplemented") | Some("todo")
                 ) =>
             {
-                self.tr_stmt_macro(&m.mac)
+                self.tr_panic_macro(&m.mac)
             }
             _ => {
                 let v = self.tr_expr(e, env, expected)?;
                 if v.callres {
                     // allowed only as the function result
-                    return k(self, v);
+                    return k(self, v, env);
                 }
-                self.force(v, k)
+                self.force(v, env, k)
             }
+        }
+    }
+
+    /// A nested block: the names it declares end with it; what it assigned stays.
+    pub fn tr_scoped_block(&mut self, stmts: &[syn::Stmt], env: &Env, in_fn_tail: bool, k: K<'_, 'a>) -> R<Doc> {
+        let outer = env.clone();
+        self.tr_block(stmts, env, in_fn_tail, &|me: &mut Tr<'a>, v: Val, env1: &Env| {
+            let e2 = env1.scope_exit(&outer);
+            k(me, v, &e2)
+        })
+    }
+
+    fn tr_panic_macro(&mut self, m: &syn::Macro) -> R<Doc> {
+        let name = m.path.segments.last().map(|s| s.ident.to_string()).unwrap_or_default();
+        self.effect_guard(&format!("`{}!`", name))?;
+        Ok(Doc::Atom("Res.panic".into()))
+    }
+
+    fn tr_stmt_macro(&mut self, m: &syn::Macro, rest: &[syn::Stmt], env: &Env, in_fn_tail: bool, k: K<'_, 'a>) -> R<Doc> {
+        let name = m.path.segments.last().map(|s| s.ident.to_string()).unwrap_or_default();
+        match name.as_str() {
+            "panic" | "unreachable" | "unimplemented" | "todo" => self.tr_panic_macro(m),
+            "write" => {
+                let (d, nv) = self.tr_write_macro(m, env)?;
+                let mut env2 = env.clone();
+                let ln = self.fresh("f");
+                env2.assign(d, Val::pure_(ln.clone(), Ty::Fmt));
+                let body = self.tr_block(rest, &env2, in_fn_tail, k)?;
+                Ok(Doc::Let(ln, nv, Box::new(body)))
+            }
+            _ => self.unsup(format!("macro `{}!` as a statement", name)),
         }
     }
 
@@ -264,12 +519,11 @@ impl<'a> Tr<'a> {
         if c.ty != Ty::Bool || c.callres {
             return self.unsup("`if` condition that is not a bool");
         }
-        let env_c = env.clone();
-        self.force(c, &|me: &mut Tr<'a>, c: Val| {
-            let a = me.tr_block(&i.then_branch.stmts, &env_c, in_fn_tail, k)?;
+        self.force(c, env, &|me: &mut Tr<'a>, c: Val, env1: &Env| {
+            let a = me.tr_scoped_block(&i.then_branch.stmts, env1, in_fn_tail, k)?;
             let b = match &i.else_branch {
-                Some((_, e)) => me.tr_tail(e, &env_c, expected, in_fn_tail, k)?,
-                None => k(me, unit())?,
+                Some((_, e)) => me.tr_tail(e, env1, expected, in_fn_tail, k)?,
+                None => k(me, unit(), env1)?,
             };
             Ok(Doc::If(c.t, Box::new(a), Box::new(b)))
         })
@@ -281,15 +535,23 @@ impl<'a> Tr<'a> {
         self.tr_match_core(&m.expr, &arms, env, expected, in_fn_tail, k)
     }
 
-    fn arm_body(&mut self, b: &ArmBody, env: &Env, expected: Option<&Ty>, in_fn_tail: bool, k: K<'_, 'a>) -> R<Doc> {
+    /// An arm: `env` has the pattern's bindings, `outer` is the environment of the `match` (the
+    /// bindings end with the arm).
+    #[allow(clippy::too_many_arguments)]
+    pub fn arm_body_pub(&mut self, b: &ArmBody, env: &Env, outer: &Env, expected: Option<&Ty>, in_fn_tail: bool, k: K<'_, 'a>) -> R<Doc> {
+        let outer = outer.clone();
+        let k2 = |me: &mut Tr<'a>, v: Val, env1: &Env| {
+            let e2 = env1.scope_exit(&outer);
+            k(me, v, &e2)
+        };
         match b {
-            ArmBody::Expr(e) => self.tr_tail(e, env, expected, in_fn_tail, k),
-            ArmBody::Block(bl) => self.tr_block(&bl.stmts, env, in_fn_tail, k),
-            ArmBody::Unit => k(self, unit()),
+            ArmBody::Expr(e) => self.tr_tail(e, env, expected, in_fn_tail, &k2),
+            ArmBody::Block(bl) => self.tr_block(&bl.stmts, env, in_fn_tail, &k2),
+            ArmBody::Unit => k2(self, unit(), env),
         }
     }
 
-    fn tr_match_core(
+    pub fn tr_match_core(
         &mut self,
         scrut: &syn::Expr,
         arms: &[(&syn::Pat, Option<&syn::Expr>, ArmBody)],
@@ -299,16 +561,24 @@ impl<'a> Tr<'a> {
         k: K<'_, 'a>,
     ) -> R<Doc> {
         let s = self.tr_expr(scrut, env, None)?;
-        if s.callres {
-            return self.unsup("`match` on the result of a call to a Result-returning function");
+        if s.itercall.is_some() {
+            return self.unsup("`match` on the result of a call that advances the subtag iterator");
         }
-        let env_c = env.clone();
+        let may_panic = s.callres;
+        let mut s = s;
+        s.callres = false;
         let arms_v: Vec<(&syn::Pat, Option<&syn::Expr>, &ArmBody)> = arms.iter().map(|(p, g, b)| (*p, *g, b)).collect();
-        self.force(s, &|me: &mut Tr<'a>, s: Val| match s.ty.clone() {
-            t if is_int(&t) || t == Ty::Char => me.match_scalar(&s, &arms_v, &env_c, expected, in_fn_tail, k),
-            Ty::Bool => me.match_bool(&s, &arms_v, &env_c, expected, in_fn_tail, k),
-            Ty::Opt(inner) => me.match_option(&s, *inner, false, &arms_v, &env_c, expected, in_fn_tail, k),
-            Ty::ResOpaque(inner) => me.match_option(&s, *inner, true, &arms_v, &env_c, expected, in_fn_tail, k),
+        self.force(s, env, &|me: &mut Tr<'a>, s: Val, env1: &Env| match s.ty.clone() {
+            _ if may_panic => me.match_general(&s, &arms_v, env1, expected, in_fn_tail, k, true),
+            Ty::Tuple(_) | Ty::Named(_) | Ty::ResPE(_) => me.match_general(&s, &arms_v, env1, expected, in_fn_tail, k, false),
+            Ty::Opt(inner) if matches!(*inner, Ty::ResPE(_) | Ty::Tuple(_) | Ty::Named(_) | Ty::Opt(_)) && arms_v.iter().any(|a| nested_some(a.0)) => {
+                me.match_general(&s, &arms_v, env1, expected, in_fn_tail, k, false)
+            }
+            t if is_int(&t) || t == Ty::Char => me.match_scalar(&s, &arms_v, env1, expected, in_fn_tail, k),
+            Ty::Bool => me.match_bool(&s, &arms_v, env1, expected, in_fn_tail, k),
+            Ty::Opt(inner) => me.match_option(&s, *inner, false, &arms_v, env1, expected, in_fn_tail, k),
+            Ty::ResOpaque(inner) => me.match_option(&s, *inner, true, &arms_v, env1, expected, in_fn_tail, k),
+            Ty::BSearch => me.match_bsearch(&s, &arms_v, env1, expected, in_fn_tail, k),
             t => me.unsup(format!("`match` on a value of type {:?}", t)),
         })
     }
@@ -409,7 +679,7 @@ impl<'a> Tr<'a> {
             (None, Some(g)) => Some(g),
             (None, None) => None,
         };
-        let this = self.arm_body(body, &env2, expected, in_fn_tail, k)?;
+        let this = self.arm_body_pub(body, &env2, env, expected, in_fn_tail, k)?;
         let d = match cond {
             None => this, // irrefutable: later arms are unreachable
             Some(c) => {
@@ -459,8 +729,8 @@ impl<'a> Tr<'a> {
         }
         match (t_arm, f_arm) {
             (Some(t), Some(f)) => {
-                let a = self.arm_body(t, env, expected, in_fn_tail, k)?;
-                let b = self.arm_body(f, env, expected, in_fn_tail, k)?;
+                let a = self.arm_body_pub(t, env, env, expected, in_fn_tail, k)?;
+                let b = self.arm_body_pub(f, env, env, expected, in_fn_tail, k)?;
                 Ok(Doc::If(s.t.clone(), Box::new(a), Box::new(b)))
             }
             _ => self.unsup("`match` on a bool without both cases"),
@@ -522,7 +792,7 @@ impl<'a> Tr<'a> {
                             syn::Pat::Wild(_) => "some _".to_string(),
                             _ => return self.unsup("nested pattern inside Some(..)/Ok(..)"),
                         };
-                        let d = self.arm_body(b, &env2, expected, in_fn_tail, k)?;
+                        let d = self.arm_body_pub(b, &env2, env, expected, in_fn_tail, k)?;
                         out.push((pat, d));
                         have_some = true;
                     } else if is_result && ctor == none_name {
@@ -532,7 +802,7 @@ impl<'a> Tr<'a> {
                         if !matches!(sub, syn::Pat::Wild(_)) {
                             return self.unsup("`Err(e)` pattern that binds a non-ParserError error value");
                         }
-                        let d = self.arm_body(b, env, expected, in_fn_tail, k)?;
+                        let d = self.arm_body_pub(b, env, env, expected, in_fn_tail, k)?;
                         out.push(("none".to_string(), d));
                         have_none = true;
                     } else {
@@ -543,7 +813,7 @@ impl<'a> Tr<'a> {
                     if have_none {
                         continue;
                     }
-                    let d = self.arm_body(b, env, expected, in_fn_tail, k)?;
+                    let d = self.arm_body_pub(b, env, env, expected, in_fn_tail, k)?;
                     out.push(("none".to_string(), d));
                     have_none = true;
                 }
@@ -551,12 +821,12 @@ impl<'a> Tr<'a> {
                     if have_none {
                         continue;
                     }
-                    let d = self.arm_body(b, env, expected, in_fn_tail, k)?;
+                    let d = self.arm_body_pub(b, env, env, expected, in_fn_tail, k)?;
                     out.push(("none".to_string(), d));
                     have_none = true;
                 }
                 syn::Pat::Wild(_) => {
-                    let d = self.arm_body(b, env, expected, in_fn_tail, k)?;
+                    let d = self.arm_body_pub(b, env, env, expected, in_fn_tail, k)?;
                     out.push(("_".to_string(), d));
                     have_some = true;
                     have_none = true;
